@@ -113,9 +113,12 @@ def _seqop_group(p, typ, pre, fac, oracle):
         for k in keys:
             if k not in order:
                 order.append(k)
+        buckets, wf = D.lifetimes(log)         # bucket by creation order of the groups, not by the index values handed out
+        if len(buckets) != len(order) or not wf:
+            return fail(op=op, arg=arg, mode='group_by', items=list(zip(keys, vals)), problem='group lifecycles', log=log, err=err)
         for gi, k in enumerate(order):
             its = [v for kk, v in zip(keys, vals) if kk == k]
-            got = [e[2] for e in log if e[0] == 'n' and e[1] == gi]
+            got = buckets[gi]
             exp = oracle(its, arg)
             if got != exp or err:
                 return fail(op=op, arg=arg, mode='group_by, 2 interleaved keys', items=list(zip(keys, vals)), group=k, group_items=its, observed=got, expected=exp, err=err)
